@@ -19,12 +19,26 @@ def eval_call(self: Exec, n, env):
   if isinstance(n.func, ast.Name) and n.func.id == 'old' and not env.has('old'):
     if self.old_env is None:
       raise OutsideSubset('old() outside a postcondition')
-    saved_store = self.store
+    saved_store, saved_heap = self.store, self.heap
     self.store = self.old_store
+    self.heap = self.old_heap if self.old_heap is not None else self.heap
     try:
       return self.eval(n.args[0], Env(self.old_env))
     finally:
-      self.store = saved_store
+      self.store, self.heap = saved_store, saved_heap
+  if isinstance(n.func, ast.Name) and n.func.id == 'acq' and not env.has('acq'):
+    # value of an expression in the heap as it was when the monitor was last (re)acquired
+    if self.acq_heap is None:
+      raise OutsideSubset('acq() without a monitor acquisition on this path')
+    saved_heap = self.heap
+    self.heap = self.acq_heap
+    saved_mode = self.spec_mode
+    self.spec_mode = True
+    try:
+      return self.eval(n.args[0], env)
+    finally:
+      self.heap = saved_heap
+      self.spec_mode = saved_mode
   f = self.eval(n.func, env)
   args = []
   for a in n.args:
@@ -106,6 +120,9 @@ def call_value(self: Exec, f, args, kwargs, node=None):
   if isinstance(f, Handler):
     return f.fn(self, args, kwargs)
   if isinstance(f, BoundMethod):
+    from .heap import MonitorHandle
+    if isinstance(f.recv, MonitorHandle):
+      return self.monitor_method(f.recv, f.name, args, kwargs)
     from .methods import call_method
     return call_method(self, f.recv, f.name, args, kwargs)
   if isinstance(f, TypeTag):
@@ -314,19 +331,20 @@ def apply_contract(self: Exec, sp: C.FnSpec, args, kwargs):
       self.mutate(boxes[p], nv)
     else:
       raise OutsideSubset(f'{sp.short} mutates argument {p} which is not a local container here')
+  heap_before = dict(self.heap)
   self.havoc_modifies(sp, env)
   if sp.returns is not None:
     res = self.fresh(sp.returns, 'r_' + tag)
   else:
     res = NONEV
   env.set('result', res)
-  saved_old, saved_old_store = self.old_env, self.old_store
-  self.old_env, self.old_store = old_env, self.store
+  saved_old, saved_old_store, saved_old_heap = self.old_env, self.old_store, self.old_heap
+  self.old_env, self.old_store, self.old_heap = old_env, self.store, heap_before
   try:
     for g in eval_clauses(self, sp.ensures, env, {}):
       self.assume(g)
   finally:
-    self.old_env, self.old_store = saved_old, saved_old_store
+    self.old_env, self.old_store, self.old_heap = saved_old, saved_old_store, saved_old_heap
   if sp.returns is not None and sp.returns.mutable and not self.spec_mode and not isinstance(sp.returns, TupleOf):
     return self.new_box(res)
   return res
@@ -346,6 +364,14 @@ def exc_tag(self, name):
 
 
 def enter_context(self, cm):
+  from .heap import MonitorHandle
+  if isinstance(cm, MonitorHandle):
+    self.monitor_enter(cm.owner)
+
+    def on_exit(cm=cm):
+      self.monitor_exit(cm.owner, 'exit')
+      self.check_transitions(cm.owner, 'exit')
+    return NONEV, on_exit
   if isinstance(cm, Handler):
     return cm.fn(self, [], {})
   if isinstance(cm, tuple) and len(cm) == 2 and callable(cm[1]):
@@ -354,6 +380,5 @@ def enter_context(self, cm):
 
 
 Exec.exc_tag = exc_tag
-Exec.havoc_modifies = lambda self, sp, env: None
 Exec.call_value = call_value
 Exec.apply_contract = apply_contract
